@@ -269,6 +269,59 @@ fn check_generated(c: &GenCase, obs: &mut Obs) -> Result<(), Fail> {
     Ok(())
 }
 
+/// Several keys that share a prefix (or differ in one bit) sign one after the other on the same thread, interleaved
+/// with each other: every signature and public key must be the reference's for *that* key, whatever was used before.
+fn check_sequence(c: &SeqCase, obs: &mut Obs) -> Result<(), Fail> {
+    let mut keys: Vec<Vec<u8>> = vec![c.base.clone()];
+    for (at, flip) in &c.variants {
+        let mut k = c.base.clone();
+        let n = k.len();
+        // keep a shared prefix of `at` bytes, change the byte after it
+        let i = (*at as usize) % n;
+        k[i] ^= flip | 1;
+        keys.push(k);
+    }
+    for (step, sel) in c.order.iter().enumerate() {
+        let kb = &keys[*sel as usize % keys.len()];
+        let msg = [c.msg.as_slice(), &[step as u8]].concat();
+        if c.extended {
+            let mut b = [0u8; 64];
+            b.copy_from_slice(kb);
+            b[0] &= 0b1111_1000;
+            b[31] = (b[31] & 0b0011_1111) | 0b0100_0000;
+            let k = SecretKeyExtended::from_bytes(b).map_err(|_| Fail { sig: "harness:clamped-key-refused".into(), msg: hex::encode(b) })?;
+            let esk = ExpandedSecretKey::from_bytes(&b);
+            let vk = VerifyingKey::from(&esk);
+            let (pk, sig) = (k.public_key(), k.sign(&msg));
+            pv_ensure!(pk.as_ref() == vk.as_bytes(), "sequence:public-key-differs-from-reference:extended", "step {step}, key {}", hex::encode(b));
+            pv_ensure!(sig.as_ref() == raw_sign::<Sha512>(&esk, &msg, &vk).to_bytes().as_slice(), "sequence:signature-differs-from-reference:extended", "step {step}, key {}", hex::encode(b));
+            pv_ensure!(pk.verify(&msg, &sig), "sequence:own-signature-rejected:extended", "step {step}");
+        } else {
+            let mut b = [0u8; 32];
+            b.copy_from_slice(kb);
+            let k = SecretKey::from(b);
+            let sk = SigningKey::from_bytes(&b);
+            let (pk, sig) = (k.public_key(), k.sign(&msg));
+            pv_ensure!(pk.as_ref() == sk.verifying_key().as_bytes(), "sequence:public-key-differs-from-reference:standard", "step {step}, key {}", hex::encode(b));
+            pv_ensure!(sig.as_ref() == sk.sign(&msg).to_bytes().as_slice(), "sequence:signature-differs-from-reference:standard", "step {step}, key {}", hex::encode(b));
+            pv_ensure!(pk.verify(&msg, &sig), "sequence:own-signature-rejected:standard", "step {step}");
+        }
+    }
+    obs.class(if c.extended { "sequence:extended" } else { "sequence:standard" });
+    obs.nontrivial_if(c.order.len() >= 2);
+    Ok(())
+}
+
+#[derive(Debug, Clone, Serialize, Deserialize)]
+pub struct SeqCase {
+    extended: bool,
+    base: Vec<u8>,
+    /// (index of the byte that differs from the base key, bits flipped there)
+    variants: Vec<(u8, u8)>,
+    order: Vec<u8>,
+    msg: Vec<u8>,
+}
+
 #[derive(Debug, Clone, Serialize, Deserialize)]
 pub struct GenCase {
     seed: Vec<u8>,
@@ -297,6 +350,23 @@ pub fn run(s: &Session) {
         check_clamp,
     );
 
+    s.forall(
+        "key-sequences",
+        s.pick(20_000, 400_000),
+        || {
+            any::<bool>().prop_flat_map(|extended| {
+                let n = if extended { 64usize } else { 32 };
+                (
+                    prop::collection::vec(any::<u8>(), n..=n),
+                    prop::collection::vec((prop_oneof![Just(8u8), Just(16), Just(31), Just(0), 0u8..64], any::<u8>()), 1..4),
+                    prop::collection::vec(0u8..4, 2..8),
+                    prop::collection::vec(any::<u8>(), 0..40),
+                )
+                    .prop_map(move |(base, variants, order, msg)| SeqCase { extended, base, variants, order, msg })
+            })
+        },
+        check_sequence,
+    );
     s.forall(
         "generated-keys",
         s.pick(20_000, 400_000),
